@@ -99,6 +99,22 @@ def fail_classes(e: Engine, ctx: Ctx, expr):
         gv = getattr(ctx.func.module, 'globals', {}).get(expr.id)
         if isinstance(gv, ast.Tuple):
             expr = gv
+    # a local bound once to a tuple of classes, in the function the test
+    # is written in (`failures = (QueueError, RelayError)`)
+    if isinstance(expr, ast.Name):
+        for f in e.p.functions.values():
+            if not f.module.name.startswith('slimta.'):
+                continue
+            if not any(x is expr for x in ast.walk(f.node)):
+                continue
+            ds = [a.value for a in walk_own(f.node)
+                  if isinstance(a, ast.Assign) and any(
+                      isinstance(t, ast.Name) and t.id == expr.id
+                      for t in a.targets)]
+            if len(ds) == 1 and isinstance(ds[0], ast.Tuple) and \
+                    expr.id not in f.params:
+                expr = ds[0]
+            break
     # a class-level name for a tuple of classes: self.X / cls.X / Class.X
     if isinstance(expr, ast.Attribute) and isinstance(expr.value, ast.Name) \
             and ctx.func.cls is not None:
